@@ -49,12 +49,46 @@ func runC07(l *core.Ledger) {
 	l.Rule("C07-E7", "the stream is marked broken only while the failed stream is still the current one (C09-W8 re-run): marking a stream the reader has already restored makes the sender replace it, the reader stays parked on the replaced stream and the node - up and answering - never contributes a reply or an error again")
 	l.With(map[string]string{"C09-W8": "C07-E7"}, func() { c09W6(l, r) })
 	checkResponseProvenance(l, r, "C07-E2")
+	c07E8(l, r)
 	c07E3(l, r)
 	c07E4(l, r)
 	c07E5(l, r)
 	if rm := buildRouterModel(l, r, "C07-E6"); rm != nil {
 		checkDeliverDelete(l, r, rm, "C07-E6", true)
 	}
+}
+
+// c07E8: a node that is down must not keep the request from the healthy nodes.
+// The call types hand the request to the nodes one after the other on the
+// caller's goroutine; if the hand-off to a node waits for that node's sender,
+// and the sender spends a connection attempt per request on a node that is down,
+// the nodes behind it in the configuration get the request late - after the
+// caller's deadline when several calls queue up - and the call fails although
+// the remaining nodes would have satisfied the quorum function.
+func c07E8(l *core.Ledger, r *rt) {
+	l.Rule("C07-E8", "a failing node does not delay the request to the other nodes: the per-node hand-off in the call types' send loops does not wait for a sender that is making a connection attempt (buffered or non-blocking hand-off, or a sender that connects off the send path)")
+	eq, handoff, canBeUnbuffered, dials := handoffWaitsForDial(l, r)
+	if eq == nil {
+		l.Unknown("C07-E8", "anchor/enqueue", token.NoPos, "enqueue or sender not found")
+		return
+	}
+	// the send loops call enqueue sequentially on the caller's goroutine
+	sequential := ""
+	var eps []*entryPoint
+	l.With(map[string]string{}, func() { eps = findEntryPoints(l, r, "C07-E8") })
+	for _, ep := range eps {
+		for _, e := range ep.enqueues {
+			if sx.InLoop(sx.NodeOf(e)) && sequential == "" {
+				sequential = ep.key
+			}
+		}
+	}
+	key := fnKey(eq) + "/hand-off-waits-for-connection-attempt"
+	if handoff == nil || !canBeUnbuffered || dials == "" || sequential == "" {
+		l.OK("C07-E8", key, eq.Pos(), "the hand-off to a node does not wait for that node's connection attempts")
+		return
+	}
+	l.Bad("C07-E8", key, handoff.Pos(), "the send loops (e.g. "+sequential+") hand the request to the nodes one after the other through a blocking select on a queue that is unbuffered by default, and a node's sender makes a synchronous connection attempt per request while the node is down ("+dials+"): a down node that sorts before healthy ones holds every call up for the length of a connection attempt per queued request - with short deadlines and back-to-back calls the healthy nodes get the request too late and the call fails although they satisfy the quorum function")
 }
 
 // errNonNilByConstruction decides that v is an error value that cannot be
